@@ -116,6 +116,9 @@ def run_ecc_match(env, sh):
     except ValueError:
         ok = False
     R = kd.pointQ
+    # two distinct points of the real curve with the same x are mirror images; the abstract group does not know that, and
+    # the mirror case is the separate 'mirror' shape: exclude 'same x, different y' here (stated)
+    env.assume(env.Or(env.Not(_iv(R.x) == qx), _iv(R.y) == qy))
     env.check(env.eqv(ok, env.And(_iv(R.x) == qx, _iv(R.y) == qy)), 'private and public parts are accepted exactly when the point is d * G')
 
 
@@ -213,6 +216,26 @@ def _coprime(env, a, b, w):
     return env.And(*[env.Not(env.And(a % r == 0, b % r == 0)) for r in _primes_below(1 << w)])
 
 
+def powmod_ref(env, b, e, m, ebits):
+    """reference b^e mod m by square-and-multiply over ebits exponent bits; intermediate results kept at the width of m"""
+    def modm(x):
+        t = x % m
+        if env.sym:
+            import z3
+            from vlib.pysym import core
+            if isinstance(t, core.SymInt) and isinstance(m, (int, core.SymInt)):
+                mw = m.bit_length() if isinstance(m, int) else m.w
+                if t.w > mw + 1:
+                    t = core.SymInt.make(z3.Extract(mw, 0, t.e), mw + 1, nn=True)
+        return t
+    r = 1 % m
+    acc = modm(b)
+    for i in range(ebits):
+        r = env.ite((e >> i) & 1 == 1, modm(r * acc), r)
+        acc = modm(acc * acc)
+    return r
+
+
 def _small_int_shims(env):
     """reduced-width integer support for the symbolic run:
     * IntegerNative.__bool__ returns `self._value != 0`; Python insists on a real bool, so the proxy is
@@ -250,12 +273,22 @@ def _small_int_shims(env):
             ebits = max(e.bit_length(), 1)
         else:
             ebits = e.w
+        import z3
+
+        def modm(x):
+            """x mod m, kept at the width of m (0 <= result < m: the width tracker would otherwise double per squaring)"""
+            t = x % m
+            if isinstance(t, core.SymInt) and isinstance(m, (int, core.SymInt)):
+                mw = m.bit_length() if isinstance(m, int) else m.w
+                if t.w > mw + 1:
+                    t = core.SymInt.make(z3.Extract(mw, 0, t.e), mw + 1, nn=True)
+            return t
         r = 1
-        acc = b % m
+        acc = modm(b)
         for i in range(ebits):
-            r = env.ite((e >> i) & 1 == 1, (r * acc) % m, r)
-            acc = (acc * acc) % m
-        return r % m
+            r = env.ite((e >> i) & 1 == 1, modm(r * acc), r)
+            acc = modm(acc * acc)
+        return modm(r)
     natives.POW_HOOK = hook
 
     def undo():
